@@ -113,15 +113,35 @@ def _fault_handling(cls):
     st, ct = _top_tries(save), _top_tries(commit)
     if len(st) != 1 or len(ct) != 2:
         raise ExtractError("__save/__commit: unexpected try structure")
-    # the rename of __save is the last statement of the try body (not in a finally)
-    last = st[0].body[-1]
-    rename_in_try = isinstance(last, ast.Expr) and isinstance(last.value, ast.Call) and \
-        getattr(last.value.func, "id", "") == "replacePath" and not st[0].finalbody
-    # the first try of __commit does not return/raise from its handler: control reaches the unlink
+    # the rename of __save is the last call of the try body (not in a finally); the only statement allowed after it
+    # is `self.__uncommittedTrusted = True`
+    def is_rename(n):
+        return isinstance(n, ast.Expr) and isinstance(n.value, ast.Call) and getattr(n.value.func, "id", "") == "replacePath"
+
+    def trusted_assign(n, val):
+        return isinstance(n, ast.Assign) and len(n.targets) == 1 and isinstance(n.targets[0], ast.Attribute) \
+            and n.targets[0].attr == "__uncommittedTrusted" and isinstance(n.value, ast.Constant) and n.value.value is val
+    body = st[0].body
+    set_after_rename = len(body) >= 2 and is_rename(body[-2]) and trusted_assign(body[-1], True)
+    rename_in_try = (is_rename(body[-1]) or set_after_rename) and not st[0].finalbody
     fin_commit = [n for n in ast.walk(fin) if isinstance(n, ast.Call) and isinstance(n.func, ast.Attribute)
                   and n.func.attr.endswith("__commit")]
     if len(fin_commit) != 1 or len(fin_commit[0].args) != 1:
         raise ExtractError("finalize: __commit call not found")
+    arg = fin_commit[0].args[0]
+    arg_not_trusted = isinstance(arg, ast.UnaryOp) and isinstance(arg.op, ast.Not) and isinstance(arg.operand, ast.Attribute) \
+        and arg.operand.attr == "__uncommittedTrusted"
+    # every assignment of the flag in the class: False in __init__, True right after the rename of __save, nothing else
+    assigns = [(fn.name, n) for fn in cls.body if isinstance(fn, ast.FunctionDef) for n in ast.walk(fn)
+               if isinstance(n, ast.Assign) and any(isinstance(t, ast.Attribute) and t.attr == "__uncommittedTrusted" for t in n.targets)]
+    flag_ok = sorted(f for f, _ in assigns) == ["__init__", "__save"] and \
+        all(trusted_assign(n, f == "__save") for f, n in assigns) and set_after_rename
+    # the flag is initialised before the first __commit of __init__
+    init = find(cls, "__init__")
+    init_pos = [n.lineno for f, n in assigns if f == "__init__"]
+    commit_pos = [n.lineno for n in ast.walk(init) if isinstance(n, ast.Call) and isinstance(n.func, ast.Attribute)
+                  and n.func.attr.endswith("__commit")]
+    flag_ok = flag_ok and bool(init_pos) and bool(commit_pos) and max(init_pos) < min(commit_pos)
     return [
         "/-- exception handling the fault model transliterates: (caught types, action) -/",
         "def saveHandlers : List (String × String) := " + _pairs(_handlers(st[0])),
@@ -130,7 +150,10 @@ def _fault_handling(cls):
         "def commitHandlers : List (String × String) := " + _pairs(_handlers(ct[0])),
         "def commitNestedTries : Nat := %d" % _nested_tries(ct[0]),
         "def discardHandlers : List (String × String) := " + _pairs(_handlers(ct[1])),
-        "def finalizeVerifies : Bool := " + ("true" if literal(fin_commit[0].args[0]) else "false"),
+        "def finalizeCommitArg : String := " + lean_str(ast.unparse(arg)),
+        "/-- finalize passes `not self.__uncommittedTrusted`; the flag is False from __init__ (before its __commit) and set",
+        "True only right after the replacePath of __save -/",
+        "def finalizeVerifiesUntrusted : Bool := " + ("true" if (arg_not_trusted and flag_ok) else "false"),
     ]
 
 
